@@ -304,6 +304,25 @@ pub fn judge(case: &Case, o: &Obs) -> Vec<(String, String)> {
     out
 }
 
+/// C04 over faulted runs: once the destination works again, the index drop leaves behind (both files up to
+/// their declared lengths) addresses exactly the records of the shapes whose write returned Ok.
+pub fn judge_frun(_pal: &crate::wexec::Palette, case: &crate::frun::FCase, run: &crate::frun::FRun) -> Vec<(String, String)> {
+    let mut out = vec![];
+    if !run.drop_undisturbed(case.ops.len()) || !case.with_shx {
+        return out;
+    }
+    let ctxt = || format!("faults {:?} fired in calls {:?}; results {:?}", case.faults, run.fired, run.results);
+    match shx_matches_shp(crate::frun::declared(&run.shp), crate::frun::declared(&run.shx)) {
+        Err(e) => out.push((format!("fault-run:{}:bytes:{}", case.ty.name(), clause_class(&e)), format!("{}: {}", ctxt(), e))),
+        Ok(df) => {
+            if df.records.len() != run.accepted.len() {
+                out.push((format!("fault-run:{}:bytes:record-count", case.ty.name()), format!("{}: {} records, {} writes returned Ok", ctxt(), df.records.len(), run.accepted.len())));
+            }
+        }
+    }
+    out
+}
+
 fn run_case(case: &Case, ctx: &mut Ctx) {
     let obs = match catch(|| observe(case)) {
         Ok(o) => o,
@@ -433,6 +452,22 @@ pub fn check(tier: Tier) -> i32 {
         }
     });
     super::c01_c02::cleanup_scratch();
+    // the same statement when the destination failed once or twice and works again
+    let (mut agg, mut capped) = (agg, capped);
+    {
+        use crate::wexec::WOp;
+        let hists = crate::frun::histories(&[WOp::W(0), WOp::W(1), WOp::F], tier.pick(3, 4));
+        let (a, c) = crate::frun::sweep(&ALL13, |_| None, &[true], &hists, true, None, |pal, case, run, ctx| {
+            let mut oh = Fnv::new();
+            oh.bytes(&run.shx);
+            ctx.case_done(case.hash(), true, oh.finish());
+            for (sig, d) in judge_frun(pal, case, run) {
+                ctx.violation(sig, || case.to_json(), || d);
+            }
+        });
+        agg.absorb(a);
+        capped |= c;
+    }
     let st = selftest();
     finish(
         RunInfo {
@@ -440,7 +475,7 @@ pub fn check(tier: Tier) -> i32 {
             tier,
             level: "model_checking",
             engine: "E2 enumerator: every ordered tuple of different-size shapes written by the real ShapeWriter, .shx parsed independently (RefCodec), reader routes compared",
-            rule: "13 types x every n in 0..=maxn x every ordered n-tuple over the type's reduced set of pairwise different-size structures; in-memory for all, from_path for n<=2 (and n=3 starting with structure 0); for n<=8 the iterator is also driven through 14 programs of std adaptors (nth, skip, step_by, last, count) with and without the index from a fresh reader, after one next() and after seek(1); non-trivial = n >= 2",
+            rule: "13 types x every n in 0..=maxn x every ordered n-tuple over the type's reduced set of pairwise different-size structures; in-memory for all, from_path for n<=2 (and n=3 starting with structure 0); for n<=8 the iterator is also driven through 14 programs of std adaptors (nth, skip, step_by, last, count) with and without the index from a fresh reader, after one next() and after seek(1); plus every history over {write a, write b, finalize} up to the fault-history bound x 13 types with every single one-shot fault and every unordered pair of faults on .shp / .shx: whenever no fault fired in drop, the two files (up to their declared lengths) satisfy the byte-level clause for the shapes whose write returned Ok; non-trivial = n >= 2",
             bounds: json!({"max_records": maxn, "reduced_set_sizes": ALL13.iter().map(|t| reduced_set(*t).len()).collect::<Vec<_>>() }),
             exhaustive: true,
             assumptions: vec!["record sizes beyond the reduced set and n beyond the bound are not covered".into()],
@@ -456,6 +491,13 @@ pub fn check(tier: Tier) -> i32 {
 }
 
 pub fn replay(v: &Value) -> Vec<(String, String)> {
+    if let Some(fc) = crate::frun::FCase::from_json(v) {
+        let pal = fc.palette();
+        return match catch(|| crate::frun::run(&pal, &fc)) {
+            Ok(r) => judge_frun(&pal, &fc, &r),
+            Err(p) => vec![(format!("fault-run:{}:{}", fc.ty.name(), p.sig()), p.msg)],
+        };
+    }
     match Case::from_json(v) {
         None => vec![("bad-replay-file".into(), "cannot parse case".into())],
         Some(case) => match catch(|| observe(&case)) {
